@@ -354,6 +354,17 @@ func (dec *Decoder) convertReference(o interface{}, p interface{}) {
 	} else if src != nil && src.Kind() == dest.Kind() && src.ConvertibleTo(dest) {
 		// e.g. a []byte read earlier referred to by a destination of a named []byte type
 		reflect.ValueOf(p).Elem().Set(reflect.ValueOf(o).Convert(dest))
+	} else if src.Kind() == reflect.Slice && dest.Kind() == reflect.Slice &&
+		src.Elem().Kind() == reflect.Uint8 && dest.Elem().Kind() == reflect.Uint8 {
+		// bytes read earlier (the table holds them as []uint8) referred to by a slice of a
+		// named byte type: Go does not convert between the two slice types
+		bytes := reflect.ValueOf(o)
+		n := bytes.Len()
+		slice := reflect.MakeSlice(dest, n, n)
+		for i := 0; i < n; i++ {
+			slice.Index(i).SetUint(bytes.Index(i).Uint())
+		}
+		reflect.ValueOf(p).Elem().Set(slice)
 	} else if dec.Error == nil {
 		dec.Error = CastError{
 			Source:      src,
